@@ -632,7 +632,22 @@ def _r_arith(root: Any, op: dict, a: Action, idx: Any) -> Action:
     return a
 
 
-_RESOLVERS = {'tok': _r_tok, 'opt': _r_opt, 'req': _r_req, 'val': _r_val, 'list': _r_list, 'view': _r_view, 'map': _r_map,
+def _r_read(root: Any, op: dict, a: Action, idx: Any) -> Action:
+    """Read-only / attribution actions in the C04 encoding (used by the claim ping-pong walks)."""
+    from vf.props import c04
+    a.P, a.structural, a.prop, a.shape = None, False, str(op.get('op', op.get('what'))), str(op.get('op', op.get('what')))
+    a.family = 'claim' if op.get('what') == 'claim' else 'read'
+
+    def run() -> None:
+        try:
+            c04._act(root, index_models(root), op, set())
+        except ValueError:
+            pass
+    a._run = run
+    return a
+
+
+_RESOLVERS = {'read': _r_read, 'tok': _r_tok, 'opt': _r_opt, 'req': _r_req, 'val': _r_val, 'list': _r_list, 'view': _r_view, 'map': _r_map,
               'space': _r_space, 'claim': _r_claim, 'copyins': _r_copyins, 'popins': _r_popins, 'arith': _r_arith}
 
 
@@ -958,6 +973,22 @@ def propose(g: L.G, root: Any, families: list[str], misfit_prob: float = 0.0, ho
     """Draws one applicable operation from the given families for the current document state.
     `hot`: ids of models inserted/moved/copied earlier; with some probability the target is chosen among them."""
     fam = g.pick(families)
+    if fam in ('tok', 'tokraw') and hot and g.p(0.6):
+        # a token edit through a node that an earlier operation inserted, moved or copied
+        hm = [m for ms in index_models(root).values() for m in ms if id(m) in hot]
+        if hm:
+            m = hm[g.n(0, len(hm) - 1)]
+            try:
+                inner = [t for t in m.tokens if type(t).RULE in TOKEN_VALUE_CLASSES]
+            except Exception:  # noqa: BLE001
+                inner = []
+            if inner:
+                t = inner[g.n(0, len(inner) - 1)]
+                rule = type(t).RULE
+                same = [x for x in O.store_tokens(root.token_store) if type(x).RULE == rule]
+                ti = next((i for i, x in enumerate(same) if x is t), None)
+                if ti is not None:
+                    return {'f': 'tok', 'cls': rule, 'ti': ti, 'kind': 'value', 'v': token_value(g, rule), 'hot': True}
     if fam == 'tok':
         return gen_tok(g, root, ('value',))
     if fam == 'tokraw':
